@@ -9,7 +9,7 @@ MANIFEST = dict(
     engine="nsim", category="exploration",
     technique="runtime monitoring: bounded-exhaustive small graphs + random graphs with planted cycles through nsim; oracle = independent "
               "DFS on the scenario's effective graph restricted to the requested closure, hop-by-hop validation of the reported cycle",
-    text="ALL graphs with <=2 statements over 3 files and every input kind / implicit output / validation placement are enumerated, 3 "
+    text="(Round 10: cycles closed by a dyndep file that is on disk and current when the build starts, the targets named one by one so that the scan meets the consumer of the future output before or after the statement the file serves; consumer-first is a known finding.) ALL graphs with <=2 statements over 3 files and every input kind / implicit output / validation placement are enumerated, 3 "
          "statements over 4 files and random graphs up to 40 statements with planted back edges (explicit, implicit, order-only, through "
          "multi-output statements and phony aliases, inside and outside the requested closure, validation back edges that are NOT "
          "cycles) are sampled; cycles closed by a deps-log / depfile record that became stale through a manifest change; cycles that "
